@@ -38,7 +38,7 @@ type Obs struct {
 	Returned  []int    `json:"returned"`  // items whose Enqueue call returned since the previous stimulus (sorted)
 	Items     [][3]int `json:"items"`     // WorkItems(): (name, priority, state 0 queued / 1 in progress), sorted by name
 	Consulted []int    `json:"consulted"` // adjust functions consulted since the previous stimulus (sorted, with multiplicity)
-	Res       int      `json:"res"`       // deq/setp: 0 nil 1 error 2 panic; erecv: token, -1 nothing, -2 nil, -3 foreign value
+	Res       int      `json:"res"`       // deq/setp: 0 nil 1 error 2 panic; erecv: token (>= 0), -1 nothing, -2 nil, -3 foreign value; any call: -9 never returned
 	Note      string   `json:"note,omitempty"`
 }
 
@@ -78,6 +78,7 @@ type sess struct {
 	unstable bool   // a quiescence wait timed out: the run says nothing
 	dispID   string // goroutine id of this queue's dispatcher
 	onStep   func(Step)
+	hung     bool // a synchronous call of the script never returned: the script ends there
 	onIntent func(Stim)
 	stopped  bool
 }
@@ -221,7 +222,42 @@ func (s *sess) uuidOf(i int) (uuid.UUID, bool) {
 	return uuid.New(), false
 }
 
+// call runs one synchronous API call of the queue in its own goroutine and reports whether it returned.  "Not
+// returned" is decided at a quiescent moment (every goroutine, the caller included, is blocked in two equal snapshots):
+// nobody is left who could wake the caller, so it hangs for ever - no wall-clock bound is involved except the
+// detector's own generous one.  A panic in the call is recovered into *panicked.
+func (s *sess) call(fn func(), panicked *string) bool {
+	done := make(chan struct{})
+	go func() {
+		defer close(done)
+		defer func() {
+			if r := recover(); r != nil {
+				*panicked = fmt.Sprint(r)
+			}
+		}()
+		fn()
+	}()
+	select {
+	case <-done:
+		return true
+	case <-time.After(200 * time.Microsecond):
+	}
+	if !quiesce() {
+		s.unstable = true
+	}
+	select {
+	case <-done:
+		return true
+	default:
+		s.hung = true
+		return false
+	}
+}
+
 func (s *sess) do(st Stim) Obs {
+	if s.hung {
+		return Obs{Res: -1, Note: "skipped: an earlier call of this script never returned"}
+	}
 	if s.onIntent != nil {
 		if st.Op == "enq" {
 			st.B = len(s.items)
@@ -265,13 +301,8 @@ func (s *sess) do(st Stim) Obs {
 		}
 	case "deq", "setp":
 		id, _ := s.uuidOf(st.A)
-		func() {
-			defer func() {
-				if r := recover(); r != nil {
-					res = 2
-					note = fmt.Sprint(r)
-				}
-			}()
+		r, n := 0, ""
+		if s.call(func() {
 			var err error
 			if st.Op == "deq" {
 				err = s.q.Dequeue(id)
@@ -279,11 +310,27 @@ func (s *sess) do(st Stim) Obs {
 				err = s.q.SetPriority(id, st.B)
 			}
 			if err != nil {
-				res = 1
+				r = 1
 			}
-		}()
+		}, &n) {
+			res, note = r, n
+			if n != "" {
+				res = 2
+			}
+		} else {
+			res, note = -9, "caller blocked: the call has not returned at a quiescent moment"
+		}
 	case "esub":
-		s.subs = append(s.subs, s.q.Errors())
+		var ch chan error
+		if s.call(func() { ch = s.q.Errors() }, &note) {
+			if note != "" {
+				res = 2
+			} else {
+				s.subs = append(s.subs, ch)
+			}
+		} else {
+			res, note = -9, "caller blocked: Errors() has not returned at a quiescent moment"
+		}
 	case "erecv":
 		res = -1
 		if st.A >= 0 && st.A < len(s.subs) {
@@ -303,14 +350,24 @@ func (s *sess) do(st Stim) Obs {
 			default:
 			}
 		}
-	case "resize":
-		s.q.ResizeQueueLength(st.A)
-	case "stop":
-		s.q.Stop()
-		s.stopped = true
-	case "break":
-		s.q.Break()
-		s.stopped = true
+	case "resize", "stop", "break":
+		if st.Op != "resize" {
+			s.stopped = true
+		}
+		if !s.call(func() {
+			switch st.Op {
+			case "resize":
+				s.q.ResizeQueueLength(st.A)
+			case "stop":
+				s.q.Stop()
+			case "break":
+				s.q.Break()
+			}
+		}, &note) {
+			res, note = -9, "caller blocked: the call has not returned at a quiescent moment"
+		} else if note != "" {
+			res = 2
+		}
 	case "adj":
 		if st.A >= 0 && st.A < len(s.items) {
 			s.items[st.A].adjVal.Store(int64(st.B))
@@ -411,7 +468,7 @@ func (s *sess) blockedProducers() int {
 // finishAll releases running work (and receives pending errors) until nothing moves any more; the stimuli
 // are part of the recorded script.
 func (s *sess) finishAll(limit int) {
-	for k := 0; k < limit; k++ {
+	for k := 0; k < limit && !s.hung; k++ {
 		if r := s.runningItems(); len(r) > 0 {
 			s.do(Stim{Op: "fin", A: r[0], B: -1})
 			continue
@@ -430,7 +487,7 @@ func (s *sess) finishAll(limit int) {
 
 // close releases the queue's goroutines when that is safe (everything accepted has finished), else leaks them.
 func (s *sess) close() {
-	if s.stopped {
+	if s.stopped || s.hung {
 		return
 	}
 	if len(s.runningItems()) == 0 && s.blockedProducers() == 0 && len(s.q.WorkItems()) == 0 {
